@@ -30,7 +30,7 @@ _CHECK = None
 class Config:
     def __init__(self, name, fn, params=None, split=None, witness_every=0, max_paths=None,
                  prove_timeout_ms=120000, branch_timeout_ms=30000, max_fanout=64, dump_smt=0,
-                 expect_paths=True, nonlinear=False, robust=False, fork_ite=False):
+                 expect_paths=True, nonlinear=False, robust=False, fork_ite=False, purify_div=False):
         self.name = name
         self.fn = fn
         self.params = params or {}
@@ -45,6 +45,7 @@ class Config:
         self.nonlinear = nonlinear
         self.robust = robust
         self.fork_ite = fork_ite
+        self.purify_div = purify_div
 
 
 def _run_task(task):
@@ -57,7 +58,7 @@ def _run_task(task):
                        prove_timeout_ms=cfg.prove_timeout_ms, max_fanout=cfg.max_fanout,
                        max_paths=cfg.max_paths, split_depth=split_depth, prefix=prefix,
                        witness_every=cfg.witness_every, dump_smt=cfg.dump_smt,
-                       nonlinear=cfg.nonlinear, robust=cfg.robust, fork_ite=cfg.fork_ite)
+                       nonlinear=cfg.nonlinear, robust=cfg.robust, fork_ite=cfg.fork_ite, purify_div=cfg.purify_div)
     ex.reset_hooks.append(loader.clear_caches)
     ex.reset_hooks.append(symnp._reset_write_log)
     if _CHECK is not None and hasattr(_CHECK, 'reset'):
